@@ -296,10 +296,11 @@ def _worker(args):
         r.world.on_handler = on_handler
         r.run(scn["actions"])
         asks = sorted({(a, b, t is not None) for (a, b, t, h) in r.world.ask_log if a != "<main>"})
-        return {"i": i, "scn": scn, "findings": r.findings, "mismatch": mism, "nobs": len(seen_obs), "handlers": sorted(handlers), "events": len(r.world.log), "asks": asks, "error": None,
+        intervals = sorted({(e[2][0], e[2][1], float(e[2][2])) for e in r.world.log if e[1] == "timer_start"})
+        return {"i": i, "scn": scn, "findings": r.findings, "mismatch": mism, "nobs": len(seen_obs), "handlers": sorted(handlers), "events": len(r.world.log), "asks": asks, "error": None, "intervals": intervals,
                 "leaves": sorted({(n, l) for (n, l, _, _) in seen_obs})}
     except BaseException:  # noqa: BLE001
-        return {"i": i, "scn": corpus_scn, "findings": [], "mismatch": [], "nobs": 0, "handlers": [], "events": 0, "asks": [], "error": traceback.format_exc()[-1500:], "leaves": []}
+        return {"i": i, "scn": corpus_scn, "findings": [], "mismatch": [], "nobs": 0, "handlers": [], "events": 0, "asks": [], "error": traceback.format_exc()[-1500:], "leaves": [], "intervals": []}
 
 
 def _init_worker():
@@ -339,7 +340,8 @@ def exploration(chk, n=None, length=40):
         agg = {"scenarios": len(res), "corpus": len(corpus), "events": sum(r["events"] for r in res), "errors": [r["error"] for r in res if r["error"]][:3],
                "n_errors": sum(1 for r in res if r["error"]), "findings": {}, "mismatches": [], "handlers": sorted({h for r in res for h in r["handlers"]}),
                "asks": sorted({tuple(a) for r in res for a in r["asks"]}), "distinct_observations": sum(r["nobs"] for r in res),
-               "leaves": sorted({tuple(x) for r in res for x in r["leaves"]}), "wall_s": round(time.time() - t0, 1)}
+               "leaves": sorted({tuple(x) for r in res for x in r["leaves"]}), "wall_s": round(time.time() - t0, 1),
+               "intervals": sorted({tuple(x) for r in res for x in r.get("intervals", [])})}
         for r in res:
             for f in r["findings"]:
                 k = f["property"] + "|" + f["key"]
@@ -353,6 +355,58 @@ def exploration(chk, n=None, length=40):
         with open(path, "w") as fh:
             json.dump(agg, fh, default=list)
         return json.load(open(path))
+
+
+def expected_intervals():
+    """(actor, delayed call) -> allowed timer intervals in seconds, from config.ini and the values the scenarios send"""
+    import configparser
+
+    from sim import scenario
+
+    c = configparser.ConfigParser()
+    c.read(os.path.join(REPO, "config.ini"))
+    boost = {300.0} | {float(v) for v in scenario.SETTINGS["/settings/filtration/boost_duration"]}
+    bw = {120.0} | {float(v) for v in scenario.SETTINGS["/settings/filtration/backwash/backwash_duration"]}
+    rinse = {60.0} | {float(v) for v in scenario.SETTINGS["/settings/filtration/backwash/rinse_duration"]}
+    h = c["heating"]
+    w = c["wintering"]
+    d = c["disinfection"]
+    T = {
+        ("Filtration", "standby"): boost, ("Filtration", "overflow"): boost, ("Filtration", "rinse"): bw, ("Filtration", "eco"): rinse,
+        ("Filtration", "heating_delayed"): {float(h["delay_to_eco"]), float(h["delay_to_open"])},
+        ("Filtration", "closed"): {2.0}, ("Filtration", "opened"): {2.0}, ("Filtration", "eco_waiting"): {5.0}, ("Filtration", "eco_normal"): {5.0},
+        ("Filtration", "wintering_waiting"): {float(w["duration"])}, ("Filtration", "do_repeat_wintering_waiting"): {120.0},
+        ("Filtration", "do_repeat_closing"): {5.0}, ("Filtration", "do_repeat_opening"): {5.0},
+        ("Heating", "recover_done"): {float(h["recover_period"])}, ("Disinfection", "run"): {float(d["start_delay"])}, ("Disinfection", "adjust"): {float(d["waiting_delay"])},
+        ("Swim", "wintering_waiting"): {float(w["swim_duration"])}, ("Swim", "do_repeat_wintering_waiting"): {120.0},
+        ("Swim", "do_repeat_timed"): {1.0}, ("Swim", "do_repeat_continuous"): {1.0},
+        ("Tank", "do_repeat_fill"): {5.0}, ("Tank", "do_repeat_low"): {5.0}, ("Tank", "do_repeat_normal"): {10.0}, ("Tank", "do_repeat_high"): {10.0},
+        ("Arduino", "do_repeat_run"): {60.0}, ("PWM", "do_run"): {1.0}, ("PWM2", "do_run"): {1.0},
+    }
+    for poll in ("comfort", "eco_normal", "eco_tank", "eco_waiting", "heating_running", "overflow_normal", "standby_normal"):
+        T[("Filtration", "do_repeat_" + poll)] = {10.0}
+    for poll in ("waiting", "heating"):
+        T[("Heating", "do_repeat_" + poll)] = {10.0}
+    return T
+
+
+def check_intervals(chk, res, actors=None):
+    """every timer armed by the real code in the explored runs has the configured duration / period"""
+    T = expected_intervals()
+    bad, seen = [], 0
+    for (owner, label, interval) in res.get("intervals", []):
+        if actors and owner not in actors:
+            continue
+        exp = T.get((owner, label))
+        if exp is None:
+            continue
+        seen += 1
+        if interval not in exp:
+            bad.append((owner, label, interval, sorted(exp)))
+    chk.correspondence("timer durations/periods armed by the REAL code in the explored runs vs config.ini / settings sent (every do_delay observed)", seen, len(bad), detail=bad[:5] or None)
+    for (owner, label, interval, exp) in bad[:3]:
+        chk.violation(f"timer-duration:{owner}:{label}", f"{owner} armed `{label}` with {interval} s, configured {exp}", {"kind": "interval", "owner": owner, "label": label, "interval": interval, "expected": exp})
+    return bad
 
 
 def shrink_finding(f):
